@@ -19,6 +19,9 @@ type tok struct {
 	tight bool
 	// leaf ('x'): the span holds a single text node
 	leaf bool
+	// glue (content tokens): no white space between this element and the next content element (the
+	// two are pieces of one word made of several inline pieces)
+	glue bool
 }
 
 var letters = "abcdefghijklmnopqrstuvwxyz"
@@ -85,6 +88,9 @@ type features struct {
 	// Leaf: inline boxes are not nested and hold a single text node (words only); used with
 	// overflow-wrap (findings D17, D18)
 	Leaf bool
+	// Pieces: some words are made of several inline pieces glued together (text, one-word inline
+	// boxes, possibly adjacent or nested): b<b>o</b>ld, H<sub>2</sub>O, un<em>believ</em><i>a</i>ble
+	Pieces bool
 }
 
 func (g *pgen) word() string { return g.wordH(true) }
@@ -142,6 +148,79 @@ func (g *pgen) spanNode(depth int) Node {
 	return n
 }
 
+// letters returns the next n letters of the running alphabet.
+func (g *pgen) run(n int) string {
+	var sb strings.Builder
+	for i := 0; i < n; i++ {
+		sb.WriteByte(letters[g.li%26])
+		g.li++
+	}
+	return sb.String()
+}
+
+// pieceWord appends one word made of 2 to 5 inline pieces with no white space between them: text
+// runs and inline boxes holding one unbreakable run (sometimes two boxes in a row, sometimes a box
+// nested in another one, sometimes a run with a hyphen, i.e. a piece that can be broken inside).
+// The boxes draw their spacing / font size like any other span of the paragraph.
+func (g *pgen) pieceWord(depth int) {
+	n := 2 + g.r.Intn(4)
+	if g.r.Intn(4) != 0 && n < 3 {
+		n = 3
+	}
+	text := func() string {
+		k := 1 + g.r.Intn(3)
+		if g.r.Intn(6) == 0 {
+			k = 4 + g.r.Intn(5)
+		}
+		s := g.run(k)
+		if g.feat.Hyphen && k >= 3 && g.r.Intn(4) == 0 {
+			j := 1 + g.r.Intn(k-2)
+			s = s[:j] + "-" + s[j:]
+		}
+		return s
+	}
+	var contents []int // indexes of the content tokens
+	isSpan := g.r.Intn(3) == 0
+	nspans := 0
+	for k := 0; k < n; k++ {
+		if k == n-1 && nspans == 0 {
+			isSpan = true
+		}
+		if !isSpan {
+			contents = append(contents, len(g.toks))
+			g.toks = append(g.toks, tok{k: 'w', s: text()})
+			isSpan = true
+			continue
+		}
+		nspans++
+		sn := g.spanNode(depth)
+		nest := depth < 2 && g.r.Intn(5) == 0
+		if nest && g.wrap && !lifted("D9") {
+			// finding D9: a span with end spacing holds nothing but one text node
+			sn.MR, sn.BR, sn.PR = 0, 0, 0
+		}
+		g.toks = append(g.toks, tok{k: 'o', node: sn, tight: sn.ML+sn.BL+sn.PL > 0 && !lifted("D15")})
+		if nest {
+			in := g.spanNode(depth + 1)
+			g.toks = append(g.toks, tok{k: 'o', node: in, tight: in.ML+in.BL+in.PL > 0 && !lifted("D15")})
+			contents = append(contents, len(g.toks))
+			g.toks = append(g.toks, tok{k: 'w', s: text()})
+			g.toks = append(g.toks, tok{k: 'x', tight: g.wrap && in.MR+in.BR+in.PR > 0 && !lifted("D7"), leaf: true})
+			g.toks = append(g.toks, tok{k: 'x', tight: g.wrap && sn.MR+sn.BR+sn.PR > 0 && !lifted("D7"), leaf: lifted("D11")})
+		} else {
+			contents = append(contents, len(g.toks))
+			g.toks = append(g.toks, tok{k: 'w', s: text()})
+			g.toks = append(g.toks, tok{k: 'x', tight: g.wrap && sn.MR+sn.BR+sn.PR > 0 && !lifted("D7"), leaf: true})
+		}
+		// after a box: text, or (one time in three) another box
+		isSpan = g.r.Intn(3) == 0
+	}
+	for _, c := range contents[:len(contents)-1] {
+		g.toks[c].glue = true
+	}
+	g.nw++
+}
+
 // seq appends elements of one nesting level; it always produces at least one word or atomic.
 func (g *pgen) seq(depth int, want int) {
 	produced := 0
@@ -183,6 +262,9 @@ func (g *pgen) seq(depth int, want int) {
 				}
 			}
 			g.toks = append(g.toks, tok{k: 'x', tight: g.wrap && n.MR+n.BR+n.PR > 0 && !lifted("D7"), leaf: leaf || lifted("D11")})
+			produced++
+		case g.feat.Pieces && depth < 3 && g.r.Intn(3) == 0:
+			g.pieceWord(depth)
 			produced++
 		case g.feat.IB && g.r.Intn(8) == 0:
 			ib := Node{K: KIB, W: pick(g.r, g.u, g.f, 2*g.f, 3*g.u), H: pick(g.r, 1, g.u, g.f, 2*g.f, 3*g.f)}
@@ -332,6 +414,12 @@ func genPara(r *rand.Rand, feat features, maxWords int, ws string) *Para {
 			out = append(out, tail...)
 			break
 		}
+		if cur.glue {
+			// pieces of one word: nothing between them but the box edges
+			out = append(out, edges...)
+			i = j
+			continue
+		}
 		nxt := toks[j]
 		glueOK := true
 		for _, e := range edges {
@@ -452,6 +540,7 @@ func (f features) String() string {
 	add(f.FontSize, "fontsize")
 	add(f.Glue, "glue")
 	add(f.Leaf, "leaf")
+	add(f.Pieces, "pieces")
 	if len(s) == 0 {
 		return "plain"
 	}
